@@ -1,6 +1,7 @@
 """C11 — A job reaches exactly the actor it names, only through that actor's queue."""
 # NOTE: no `from __future__ import annotations` (actors carry real annotations)
 import asyncio
+from datetime import timedelta
 import signal
 
 from hypothesis import strategies as st
@@ -34,7 +35,9 @@ def routing_case(draw, broker):
         jobs.append({"id": f"j{i}", "name": draw(st.sampled_from(NAMES + ["zz_unknown"])),
                      "queue": draw(st.sampled_from(QUEUES + ["q_unserved"])),
                      "at": draw(st.one_of(st.just(0.0), st.integers(0, 1500).map(lambda ms: ms / 1000))),
-                     "retries": draw(st.integers(0, 2))})
+                     "retries": draw(st.integers(0, 2)),
+                     # some jobs are deferred: they pass through the delayed category of a queue other workers poll
+                     "delay_ms": draw(st.sampled_from([0, 0, 0, 300, 900, 1500]))})
     case = {"broker": broker, "seed": draw(st.integers(0, 2**16)), "routers": routers, "workers": workers, "jobs": jobs}
     if broker != "mem":
         case["lat"] = draw(st.lists(st.sampled_from([0.0, 0.001, 0.002]), max_size=15))
@@ -97,10 +100,15 @@ async def _routing(loop, case, out: Outcome):
                   stale=any(got_tbq.get(q, set()) - exp_tbq.get(q, set()) for q in got_tbq))
         workers.append(wk)
     enq: dict = {}
+    due: dict = {}
 
     async def produce(j):
         await asyncio.sleep(j["at"])
-        enq[j["id"]] = await Job(j["name"], queue=j["queue"], id_=j["id"], retries=j["retries"], _connection=prod).enqueue()
+        extra = {}
+        if j.get("delay_ms"):
+            extra["deferred_until"] = vclock.VDateTime.now() + timedelta(milliseconds=j["delay_ms"])
+            due[j["id"]] = loop.time() + j["delay_ms"] / 1000
+        enq[j["id"]] = await Job(j["name"], queue=j["queue"], id_=j["id"], retries=j["retries"], _connection=prod, **extra).enqueue()
 
     prods = [asyncio.ensure_future(produce(j)) for j in case["jobs"]]
     tasks, handlers = [], []
@@ -122,7 +130,7 @@ async def _routing(loop, case, out: Outcome):
                 regs.add(a["reg"])
         expect[j["id"]] = regs
     own = [j["id"] for j in case["jobs"] if expect[j["id"]]]
-    bound = 2.0 + 1.5 + len(case["jobs"]) * 1.2
+    bound = 2.0 + 1.5 + len(case["jobs"]) * 1.2 + (3.5 if any(j.get("delay_ms") for j in case["jobs"]) else 0.0)
     while loop.time() < bound:
         await asyncio.sleep(0.1)
         if all(p.done() for p in prods) and all(any(r[0] == i for r in runs) for i in own):
@@ -166,6 +174,8 @@ async def _routing(loop, case, out: Outcome):
                       f"{[p.short() for p in places]}", broker=case["broker"], foreign_requeue_contention=bool(contention))
             elif len(rs) > 1:
                 out.v("executed-twice", f"{tag}: executed {len(rs)} times {rs}")
+            elif id_ in due and rs[0][3] < due[id_] - 0.001:
+                out.v("executed-early", f"{tag}: deferred until {due[id_]:.3f}, executed at {rs[0][3]:.3f}")
             elif rs[0][1] not in expect[id_]:
                 out.v("wrong-actor", f"{tag}: executed by registration {rs[0][1]}, expected one of {sorted(expect[id_])}")
         else:
@@ -176,7 +186,7 @@ async def _routing(loop, case, out: Outcome):
             if id_ not in enq:
                 continue
             kinds = [p.kind for p in places]
-            if kinds != ["waiting"]:
+            if kinds != ["waiting"] and not (j.get("delay_ms") and kinds == ["delayed"]):
                 out.v("foreign-not-left-alone", f"{tag}: must stay waiting in its queue, found {[p.short() for p in places]}",
                       broker=case["broker"], kinds=sorted(kinds))
             elif places[0].queue != j["queue"] or (places[0].params is not None and places[0].params != enq[id_][2]):
